@@ -96,13 +96,26 @@ def concretise_chunks(abs_chunks, rng, nsym=6, small=True):
         plan.append(it); meta.append(('lzma', pl))
     chunks, _ = gl2.encode_chunks(plan)
     sizes, outs, parts = [], [], []
-    for c, (kind, pl) in zip(chunks, meta):
+    for c, (kind, pl) in zip(list(chunks), meta):
         if kind == 'lzma':
             if pl == 'short':
                 c['csize'] = len(c['payload']) + 1
                 c['payload'] = c['payload'] + b"\x00"
             elif pl == 'long':
                 c['csize'] = len(c['payload']) - 1
+            elif pl == 'rcend':
+                # same symbols, but the range coder does not end with code == 0: change the last byte until the independent
+                # decoder says exactly that about this chunk
+                done = False
+                base = b"".join(parts)
+                for delta in (1, 2, 3, 5, 8, 16, 64, 128, 255, 254, 7, 11):
+                    cand = dict(c, payload=c['payload'][:-1] + bytes([(c['payload'][-1] + delta) & 0xFF]))
+                    r = gl2.decode(base + gl2.write_chunk(cand) + b"\x00", 4096, collect=None)
+                    if r.status == 'error:chunk:rc_end':
+                        c = cand; done = True; break
+                if not done:
+                    raise RuntimeError("could not build a chunk with a dirty range coder end")
+                chunks[len(parts)] = c
         b = gl2.write_chunk(c)
         parts.append(b)
         sizes.append((len(b), c.get('usize', len(c.get('payload', b""))) if kind in ('lzma', 'unc') else 0))
@@ -136,6 +149,7 @@ CATALOGUE_SHAPES = [
     [C_('lzma', 'all', props='bad'), C_('end')],
     [C_('lzma', 'all', pl='err'), C_('end')],
     [C_('lzma', 'all'), C_('lzma', 'none', pl='short'), C_('end')],
+    [C_('lzma', 'all'), C_('lzma', 'state', pl='rcend'), C_('end')],              # range coder not finished (rc_is_finished)
 ]
 
 def build_catalogue(seed):
